@@ -346,7 +346,10 @@ func (broker *Broker) recover() (send []sts.Hashed, err error) {
 			return false
 		}
 		if store.IsNotExist(err) {
-			cache.Done(f.GetName(), nil)
+			// Forgotten, not marked done: "done" means confirmed by the
+			// receiver - a file that comes back unchanged would be passed
+			// over by the scan and deleted by its clean-up, unsent
+			cache.Remove(f.GetName())
 			return false
 		}
 		if err != nil {
@@ -1381,7 +1384,7 @@ func (broker *Broker) startRetry(wg *sync.WaitGroup) {
 		if err != nil {
 			broker.error(err)
 			if store.IsNotExist(err) {
-				cache.Done(file.GetName(), nil)
+				cache.Remove(file.GetName())
 			}
 			continue
 		}
